@@ -49,13 +49,13 @@ def Fx.all : Fx := ⟨true, true, true, true, true, true, true⟩
 
 /-- the tree `./check C11` runs against. -/
 def cur : Fx :=
-  { nullUnion := false
-    nullAnd := false
-    fmtSib := false
-    openObj := false
-    reqAddl := false
-    intBounds := false
-    tupOpen := false }
+  { nullUnion := true
+    nullAnd := true
+    fmtSib := true
+    openObj := true
+    reqAddl := true
+    intBounds := true
+    tupOpen := true }
 
 /-- what `convert` reads off one schema object; sub-schemas are kept as conversion RESULTS so
     that an error in a sibling the dispatch ignores is ignored as well. -/
